@@ -154,12 +154,17 @@ class CallGuard:
     def edges(self, body):
         tr = Tracker(body)
         n = 0
+        self.seeds = set()
         for b in self.sites(body):
             t = b["term"]
             if len(t["d"]) == 1:
-                tr.seed_call_result(t["d"][0], self.steps, _is_future_local(body, t["d"][0]))
+                fut = _is_future_local(body, t["d"][0])
+                tr.seed_call_result(t["d"][0], self.steps, fut)
+                if not fut and self.steps == ("true",):
+                    self.seeds.add((b["id"], t["d"][0], True))
                 n += 1
         tr.run()
+        self.tracker = tr
         return n, tr.accept, tr.reject
 
 
@@ -288,6 +293,7 @@ class CmpGuard:
         tr = Tracker(body)
         n = 0
         self.found = []
+        self.seeds = set()
         for c in compare_sites(body):
             la, lb = op_local(c["a"]), op_local(c["b"])
             rel = None
@@ -304,10 +310,13 @@ class CmpGuard:
             self.found.append((c["line"], rel))
             if rel in self.required:
                 tr.seed_bool(c["d"], True)
+                self.seeds.add((c["bb"], c["d"], True))
             elif REL_NEG[rel] in self.required:
                 tr.seed_bool(c["d"], False)
+                self.seeds.add((c["bb"], c["d"], False))
             # else: neither edge establishes the required relation → no accepting edge from this site
         tr.run()
+        self.tracker = tr
         return n, tr.accept, tr.reject
 
 
@@ -914,3 +923,200 @@ class FieldBoolGuard:
             tr.seed_bool(l, self.want)
         tr.run()
         return len(seeds), tr.accept, tr.reject
+
+
+# ------------------------------------------------------------------ bool verdict / per-element keepers
+
+POSITIVE = ("bool", (), False)
+
+
+def _bool_verdict(self, rule, body, guard, descr, emit=True):
+    """The bool-returning `body` yields `true` only when `guard` accepted: every assignment of the return place is the
+    constant false, the guard's own (positive) verdict, or sits behind an accepting edge of the guard."""
+    n, acc, _rej = guard.edges(body)
+    tr, seeds = guard.tracker, getattr(guard, "seeds", set())
+    g = cfg_of(body)
+    free = g.reach((0,), cut=acc)
+    bad, sites = [], 0
+    for b in body.blocks:
+        if b["cleanup"] or b["id"] not in g.reach((0,)):
+            continue
+        for st in b["stmts"]:
+            if st["d"] != [0]:
+                continue
+            sites += 1
+            rv = st["rv"]
+            if rv["k"] == "use" and rv["a"][0] == "c" and rv["a"][1] == "false":
+                continue
+            if rv["k"] == "bin" and (b["id"], 0, True) in seeds:
+                continue
+            if rv["k"] == "use" and rv["a"][0] in ("cp", "mv") and len(rv["a"][1]) == 1:
+                sts = tr.states.get(rv["a"][1][0], set())
+                if sts and all(x == POSITIVE for x in sts):
+                    continue
+            if b["id"] not in free:
+                continue
+            bad.append(st["l"])
+        t = b["term"]
+        if t["k"] == "call" and t["d"] == [0]:
+            sites += 1
+            if (b["id"], 0, True) in seeds or b["id"] not in free:
+                continue
+            bad.append(t["l"])
+    ok = n > 0 and sites > 0 and not bad
+    if emit:
+        if n == 0:
+            self.viol(rule, "guard-missing:%s" % guard.label, "no `%s` in %s" % (guard.label, body.path), body, body.lines[0])
+        for l in bad[:1]:
+            self.viol(rule, "verdict:%s" % guard.label, "%s can return something other than false without `%s` having held" % (body.path, guard.label), body, l)
+        self.inst(rule, "K4 gate", descr, sites, ok, {"guard": guard.label, "guard_sites": n})
+    return ok
+
+
+Run.bool_verdict = _bool_verdict
+
+PER_ELEMENT_KEEPERS = ["core::iter::traits::iterator::Iterator::filter", "alloc::vec::Vec::retain", "*Vec<T, A>::retain", "*Vec<T,A>::retain"]
+PUSHERS = ["alloc::vec::Vec::push", "*Vec<T, A>::push", "*BTreeSet<T, A>::insert", "alloc::collections::btree::set::BTreeSet::insert"]
+
+
+def closures_passed(F, body, term):
+    """closure bodies handed as arguments to the call `term` (matched through the closure type of the argument local)"""
+    out = []
+    for arg in term["args"]:
+        l = op_local(arg)
+        ty = body.locals.get(str(l), "") if l is not None else ""
+        if "closure" not in ty:
+            continue
+        for c in F.item(F.root_of(body).path):
+            if c.kind == "closure" and (":%d:" % c.lines[0]) in ty and c not in out:
+                out.append(c)
+    return out
+
+
+def _per_element_keep(self, rule, body, make_guard, descr):
+    """Some per-element filter in `body` keeps an element only if the guard held for *that* element.
+
+    Forms: (A) Iterator::filter / Vec::retain with a closure whose verdict is the guard's (bool_verdict); (B) a loop whose
+    push/insert into the kept collection is cut by the guard on every iteration.  Returns (form, kept) where `kept` is the
+    set of locals holding the filtered collection (used as a cut for flows-to rules), or (None, set()) after reporting."""
+    F = self.F
+    prep(body)
+    ta = Taint(body, through="all")
+    for kb in [b for b in body.blocks if b["term"]["k"] == "call" and not b["cleanup"] and callee_matches(b["term"], PER_ELEMENT_KEEPERS)]:
+        for cl in closures_passed(F, body, kb["term"]):
+            prep(cl)
+            gd = make_guard("closure")
+            if gd.edges(cl)[0] == 0:
+                continue
+            ok = self.bool_verdict(rule, cl, gd, descr + " (filter/retain closure)")
+            t = kb["term"]
+            if "retain" in (t["ncallee"] or ""):
+                kept = set(ta.ref_of.get(op_local(t["args"][0]), ()))
+            else:
+                kept = {t["d"][0]}
+            return ("closure" if ok else "closure-bad"), kept
+    gd = make_guard("loop")
+    pushes = CallSink(*PUSHERS)
+    if gd.edges(body)[0] > 0 and pushes.blocks(body):
+        g = cfg_of(body)
+        # only pushes inside a cycle
+        loop_push = [bb for bb in pushes.blocks(body) if bb in g.reach(tuple(d for d, _ in g.succ[bb]))]
+        if loop_push:
+            ok = self.gate(rule, body, BlockSink(lambda b: loop_push, "push into the kept collection"), [[gd]], descr=descr + " (loop form)", per_iteration=True)
+            kept = set()
+            for bb in loop_push:
+                kept |= set(ta.ref_of.get(op_local(g.term(bb)["args"][0]), ()))
+            return ("loop" if ok else "loop-bad"), kept
+    gd = make_guard("loop")
+    n = gd.edges(body)[0]
+    self.viol(rule, "not-per-element:%s" % gd.label,
+              "%s has no per-element `%s` (neither a filter/retain closure deciding on it nor a loop whose push is cut by it); %d such test(s) sit outside any "
+              "per-element position, so elements can be kept unchecked" % (body.path, gd.label, n), body, body.lines[0])
+    self.inst(rule, "K4 gate", descr, 0, False)
+    return None, set()
+
+
+Run.per_element_keep = _per_element_keep
+
+
+class ForallGuard:
+    """Accepting edges = those on which *every* element of `<x>.<field>` has passed `check` (logical result `steps`).
+
+    Forms recognised: (A) a `for` loop over the field (no element-dropping adaptor between the field and the iterator)
+    whose every iteration passes the check's accepting edge before the next `Iterator::next`, and which does not continue
+    after a failing check — the accepting edges are the loop's exhausted-iterator exits; (B) `iter().any(|x| check(x))`
+    / `iter().all(|x| check(x))` over the field with a closure that returns the check's verdict — the accepting edge is
+    the `any == false` / `all == true` side (polarity chosen from `steps`)."""
+
+    def __init__(self, field, check_pats, steps, label):
+        self.field = field
+        self.check_pats = list(check_pats)
+        self.steps = tuple(steps)
+        self.label = label
+        self.forms = []
+
+    def _source_ok(self, F, body, local):
+        ta = Taint(body)
+        for it in ta.ref_of.get(local, {local}) | {local}:
+            names, fields = _chain_calls(F, body, it)
+            dropped = [n for n in names if any(n.endswith(x) or (x + "<") in n for x in DROPPING_ADAPTORS)]
+            if self.field in fields and not dropped:
+                return True
+        return False
+
+    def edges(self, body):
+        F = body._facts
+        prep(body)
+        g = cfg_of(body)
+        acc, rej, n = set(), set(), 0
+        self.forms = []
+        chk = CallGuard(self.check_pats, self.steps)
+        cn, cacc, crej = chk.edges(body)
+        for nb in body.blocks:
+            t = nb["term"]
+            if nb["cleanup"] or t["k"] != "call" or len(t["d"]) != 1:
+                continue
+            gen = t["ngen"] or ""
+            if gen.endswith("iterator::Iterator::next") and cn:
+                if not self._source_ok(F, body, op_local(t["args"][0])):
+                    continue
+                tr = Tracker(body)
+                tr.seed_call_result(t["d"][0], ("None",), False)
+                tr.run()
+                if not tr.accept or not tr.reject:
+                    continue
+                starts = tuple(d for _, d in tr.reject)
+                if nb["id"] in g.reach(starts, cut=cacc):
+                    continue  # an iteration can come round without the check having accepted
+                if any(nb["id"] in g.reach((d,)) for _, d in crej):
+                    continue  # the loop goes on after a failed check
+                n += 1
+                acc |= tr.accept
+                rej |= crej
+                self.forms.append("loop")
+            elif gen.endswith("iterator::Iterator::any") or gen.endswith("iterator::Iterator::all"):
+                is_any = gen.endswith("::any")
+                if not self._source_ok(F, body, op_local(t["args"][0])):
+                    continue
+                good = False
+                for cl in closures_passed(F, body, t):
+                    prep(cl)
+                    direct = [b for b in cl.blocks if b["term"]["k"] == "call" and callee_matches(b["term"], self.check_pats) and b["term"]["d"] == [0]]
+                    others = [st for b in cl.blocks if not b["cleanup"] for st in b["stmts"] if st["d"] == [0]]
+                    if direct and not others:
+                        good = True
+                if not good:
+                    continue
+                # any(check) is false  <=>  every element has check == false ; all(check) is true <=> every element has check == true
+                want_true = self.steps == ("true",)
+                if is_any and want_true or (not is_any and not want_true):
+                    continue
+                tr = Tracker(body)
+                tr.seed_call_result(t["d"][0], ("false",) if is_any else ("true",), False)
+                tr.run()
+                if tr.accept:
+                    n += 1
+                    acc |= tr.accept
+                    rej |= tr.reject
+                    self.forms.append("any" if is_any else "all")
+        return n, acc, rej
